@@ -45,10 +45,38 @@ func removalExclusion(c *Check, f *ssa.Function, ts VM, nodeExpr VM) (bool, stri
 }
 
 func propC10(c *Check) {
-	c.Explain = "Decides the arithmetic and structural facts behind quorum intersection: (1) the return expression of ConsensusThreshold is extracted (consensusBase*2/3+1) and evaluated for every base b in [KernelMinimumNodesCount, 64]: for every key-set size n with t <= n <= b, 3*(2t-n) > n, i.e. two signer sets of size >= t inside n keys share more than n/3; below the minimum the function returns 1000, which exceeds the 64-bit mask size, and the minimum test is consensusBase < KernelMinimumNodesCount; (2) key set is a subset of the base set: consensusNodes admits a node only if ConsensusReady (ACCEPTED and genesis or Timestamp+KernelNodeAcceptPeriodMinimum < T), the base counts ACCEPTED nodes with genesis or Timestamp+SnapshotReferenceThreshold*SnapshotRoundGap < T, and the constants satisfy AcceptPeriodMinimum >= ReferenceThreshold*RoundGap; with final=true pledging nodes are not counted; (3) ConsensusThreshold and consensusNodes read the same list NodesListWithoutState(T,false) and apply the same predictive-removal exclusion; (4) KernelMaximumNodesCount <= 64. KNOWN FINDING (reported, not repaired): for round 0 of a pledging chain consensusNodes appends the pledging node itself, so the key set has b+1 keys while the threshold is computed from b; for b mod 3 != 0 (e.g. b=7, t=5, n=8) two certificates can intersect in no more than n/3 keys."
+	c.Explain = "Decides the arithmetic and structural facts behind quorum intersection: (1) the return expression of ConsensusThreshold is extracted (consensusBase*2/3+1) and evaluated for every base b in [KernelMinimumNodesCount, 64]: for every key-set size n with t <= n <= b, 3*(2t-n) > n, i.e. two signer sets of size >= t inside n keys share more than n/3; below the minimum the function returns 1000, which exceeds the 64-bit mask size, and the minimum test is consensusBase < KernelMinimumNodesCount; (2) key set is a subset of the base set: consensusNodes admits a node only if ConsensusReady (ACCEPTED and genesis or Timestamp+KernelNodeAcceptPeriodMinimum < T), the base counts ACCEPTED nodes with genesis or Timestamp+SnapshotReferenceThreshold*SnapshotRoundGap < T, and the constants satisfy AcceptPeriodMinimum >= ReferenceThreshold*RoundGap; with final=true pledging nodes are not counted; (3) ConsensusThreshold and consensusNodes read the same list NodesListWithoutState(T,false) and apply the same predictive-removal exclusion; (4) KernelMaximumNodesCount <= 64. KNOWN FINDING (reported, not repaired): for round 0 of a pledging chain consensusNodes appends the pledging node itself, so the key set has b+1 keys while the threshold is computed from b; for b mod 3 != 0 (e.g. b=7, t=5, n=8) two certificates can intersect in no more than n/3 keys. Pairing: at every cacheVerifyCosi call site in the module (verifyFinalization current rule and legacy retry, cosiHandleResponse) the threshold argument is ConsensusThreshold(T, _) and the key vector is ConsensusKeys(round, T) for the same T."
 	c.NotCov = "that the sets coincide at every timestamp boundary of every history (C11 decides determinism, not equality across nodes)."
 	c.Floor(10)
 	w := c.W
+	// ---- threshold / key-set pairing at every certificate verification: the threshold handed to
+	// cacheVerifyCosi is ConsensusThreshold(T, _) for the same T whose ConsensusKeys(round, T)
+	// produced the key vector it is checked against (a threshold from one membership state applied
+	// to the key set of another loses the intersection bound).
+	{
+		n := 0
+		for _, fn := range w.ModuleFuncs() {
+			if shortName(fn) == "(*kernel.Node).cacheVerifyCosi" {
+				continue
+			}
+			for _, ci := range findCalls(fn, "(*kernel.Node).cacheVerifyCosi") {
+				n++
+				c.Sites++
+				a := ci.Common().Args
+				ok, why := false, "key vector is not the second result of ConsensusKeys"
+				if ex, isEx := a[4].(*ssa.Extract); isEx && ex.Index == 1 {
+					if ck, isCall := ex.Tuple.(*ssa.Call); isCall && calleeName(&ck.Call) == "(*kernel.Chain).ConsensusKeys" {
+						why = "threshold is not ConsensusThreshold of the same timestamp"
+						if th, isTh := a[5].(*ssa.Call); isTh && calleeName(&th.Call) == "(*kernel.Node).ConsensusThreshold" {
+							ok = sameAccess(th.Call.Args[1], ck.Call.Args[2])
+						}
+					}
+				}
+				c.Require(ok, "pairing", shortName(fn)+"|cacheVerifyCosi threshold and key set from one timestamp", "the threshold argument is ConsensusThreshold(T, _) and the key vector is ConsensusKeys(round, T) for the same T", why, instrPos(w, ci))
+			}
+		}
+		c.Require(n >= 3, "floor", "kernel|certificate verifications located", "at least three cacheVerifyCosi call sites (two in verifyFinalization, one in cosiHandleResponse)", "found "+itoa(n))
+	}
 	f := c.F("(*kernel.Node).ConsensusThreshold")
 	if f != nil {
 		base := PhiNamed("consensusBase")
